@@ -98,6 +98,7 @@ class TLoop:
 
     def __init__(self, res, L):
         self.L = L
+        self.res = res
         it = L.iter
         self.seq = it[1] if isinstance(it, tuple) and it[0] == "enum" else it
         self.enumerated = isinstance(it, tuple) and it[0] == "enum"
@@ -129,6 +130,13 @@ def check_tloop(ctx, construct, tl, want_rev, fitted_only, loc):
     if fitted_only and tl.attr != "steps_":
         ctx.violation("R1", construct + ":range", "iterates the constructor's `steps` (unfitted originals) instead of the fitted `steps_`", loc)
         ok = False
+    ex = tl.res.early_exits(tl.L.id)
+    if ex:
+        e0 = ex[0]
+        why = ", ".join("%s is %s" % (tl.res.fmt(c), p) for c, p, _ in tl.res.facts(e0)[-1:]) or "unconditionally"
+        ctx.violation("R1", construct + ":range", "the transformer loop is left early by `%s` (%s): the remaining transformers are not visited "
+                      "(a step that should merely be skipped ends the chain)" % (e0.kind, why), loc_of(e0))
+        ok = False
     sv = tl.slice_verdict()
     if sv is None:
         ctx.undecided("R1", construct + ":range", "cannot interpret the step range %r" % (tl.sl,), loc)
@@ -138,7 +146,7 @@ def check_tloop(ctx, construct, tl, want_rev, fitted_only, loc):
                       % ("whole list" if tl.sl is None else "%s:%s" % (const(tl.sl[1]), const(tl.sl[2]))), loc)
         ok = False
     elif ok:
-        ctx.ok("R1", construct + ":range", "iterates %s[:-1] (every transformer, not the final forecaster)" % tl.attr, loc)
+        ctx.ok("R1", construct + ":range", "iterates %s[:-1] (every transformer, not the final forecaster), never left early" % tl.attr, loc)
     if tl.rev != want_rev:
         ctx.violation("R1", construct + ":order", "transformers are visited in %s order, must be %s"
                       % ("reversed" if tl.rev else "forward", "reversed" if want_rev else "forward"), loc,
@@ -325,6 +333,11 @@ def r1_predict(ctx, repo, cls):
     fn = repo.lookup_method(cls, "_predict")[1]
     loc0 = ctx.loc(cls.module, fn)
     rets = [(v, c) for v, c in res.returns]
+    if len(rets) > 1:
+        # returns from inside a loop are early exits of that loop (reported by the range obligation below)
+        outer = [(v, c) for v, c in rets if not any(x[0] == "loop" for x in c)]
+        if len(outer) == 1:
+            rets = outer
     if len(rets) != 1:
         ctx.undecided("R1", C + ":result", "expected a single return, found %d" % len(rets), loc0)
         return
@@ -509,7 +522,7 @@ def loop_plain(res, lid):
     node = L.node
     if isinstance(node, (ast.ListComp, ast.GeneratorExp, ast.SetComp)):
         return all(not g.ifs for g in node.generators)
-    return True
+    return not res.early_exits(lid)
 
 
 def r2_fit(ctx, repo, cls):
@@ -742,6 +755,12 @@ def r3(ctx, repo):
                 continue
             else:
                 other.append(cond)
+        stale = [o for o in other if any(isinstance(x, tuple) and x[:1] in (("attr0",), ("attr@",)) and x[1:2] == ("_forecaster",) for x in _subterms(o))]
+        if stale:
+            ctx.violation("R3", C + ":selected-by-name", "the selection also depends on the previously selected forecaster (%s): once a component "
+                          "was chosen, a changed `selected_forecaster` is ignored by later fits" % ", ".join(res.fmt(o) for o in stale), loc,
+                          witness={"history": "fit(); set_params(selected_forecaster=other); fit() keeps forecasting with the first component"})
+            continue
         mentions_sel = any(sel in _subterms(o) for o in other)
         if other and (match or mentions_sel):
             ctx.undecided("R3", C + ":selected-by-name", "selection guarded by unknown conditions: %s" % [res.fmt(o) for o in other], loc)
